@@ -1,7 +1,7 @@
 import Cctp.Model.Bytes
 import Cctp.Model.Result
 import Cctp.Model.Ext
-import Cctp.Gen.Constants
+import Cctp.Model.Consts
 /-
   keeper/attestation.go: VerifyAttestationSignatures.  The length check is done in 64 bits (exact for
   every length a Go slice can have); the per-signature offsets are uint32 arithmetic as in the code.
